@@ -1,4 +1,5 @@
 import RoaringModel.Lemmas.UnsafeLemmas
+import RoaringModel.Store
 /-!
 # C15 — no safe call sequence causes an invalid memory access (bounds logic of the unsafe sites)
 
@@ -291,5 +292,36 @@ theorem C15_keyBack_advanceBackTo (it : BIter) (index : Nat) (hi : index < 65536
   C15_inv_advanceBackTo it index hi h
 
 example : k ∈ List.range' (5 + 1) (9 - 5 - 1) → k < 1024 := C15_next_scan_index 5 9 k (by decide)
+
+/-! ## Fidelity audit (stores): `retain` with the stateless closures of `ArrayStore &= / -= &BitmapStore`
+
+`notes/fidelity-stores-iter32.md`.  `C15_retain_eq_model` ties the index-level `retain` loop (write cursor `pos`,
+`truncate(pos)`) to the list-level model for the two galloping closures.  The remaining two callers of `retain`
+(array_store/mod.rs:398 `|x| rhs.contains(x)`, :437 `|x| !rhs.contains(x)`) have a stateless predicate; the list-level
+model (`Store.arrAndBitmap`, `Store.arrSubBitmap`) is `List.filter`. -/
+
+/-- Site 9, tie of the two models for a stateless predicate: on any vector the index-level `retain` leaves exactly
+    `List.filter p`; with `p = rhs.contains` / `!rhs.contains` that is `Store.arrAndBitmap` / `Store.arrSubBitmap`. -/
+theorem C15_retain_filter_eq_model (p : Nat → Bool) (vec : Array Nat) (b : BStore) :
+    (retain (fun (_ : Unit) x => ((), p x)) () vec).1.toList = vec.toList.filter p
+    ∧ (retain (fun (_ : Unit) x => ((), b.contains x)) () vec).1.toList = Store.arrAndBitmap vec.toList b
+    ∧ (retain (fun (_ : Unit) x => ((), !b.contains x)) () vec).1.toList = Store.arrSubBitmap vec.toList b :=
+  ⟨retain_filter p vec, retain_filter _ vec, retain_filter _ vec⟩
+
+example : (retain (fun (_ : Unit) x => ((), x % 2 == 1)) () #[7, 3, 4, 7, 0, 9]).1 = #[7, 3, 7, 9] := by decide
+
+/-- Site 9, the in-place `ArrayStore &= &ArrayStore` / `-= &ArrayStore` exactly as written: the index-level `retain` loop
+    with the closure whose captured state is the index `i` into `rhs`
+    (`i += rhs.iter().skip(i).position(|y| *y >= x).unwrap_or(rhs.vec.len()); rhs.vec.get(i).map_or(..)`), started at
+    `i = 0`, computes the list-level model `Arr.andAssign` / `Arr.subAssign` — on arbitrary (also ill-formed) vectors. -/
+theorem C15_retain_index_closure_eq_model (vec rhs : Array Nat) :
+    (retain (andClosureIdx rhs.toList) 0 vec).1.toList = Arr.andAssign vec.toList rhs.toList
+    ∧ (retain (subClosureIdx rhs.toList) 0 vec).1.toList = Arr.subAssign vec.toList rhs.toList :=
+  ⟨retain_andIdx vec rhs, retain_subIdx vec rhs⟩
+
+/-- unsorted operands with duplicates; the index runs past `rhs.len()` once nothing `≥ x` is left -/
+example : (retain (andClosureIdx [1, 7, 7, 2]) 0 #[5, 7, 1, 9, 2]).1 = #[7] ∧
+    (retain (subClosureIdx [1, 7, 7, 2]) 0 #[5, 7, 1, 9, 2]).1 = #[5, 1, 9, 2] ∧
+    (retain (andClosureIdx [1, 7, 7, 2]) 0 #[5, 7, 1, 9, 2]).2.1 = 9 := by decide
 
 end Roaring.C15
